@@ -261,6 +261,8 @@ func cmdCheck(args []string) int {
 		suffix := " no-failing-input-found"
 		if model != "" {
 			rep["model"] = truncate(model, 20000)
+		}
+		if ob != nil && fnKey != "" {
 			if ok, out := p.replayObligation(*verifDir, *repo, id, resByKey[fnKey], ob); out != "" {
 				rep["replay_output"] = out
 				if ok {
